@@ -280,6 +280,213 @@ pub fn cmd_feed(args: &[String]) {
     println!("{{\"inputs\":{},\"events\":{}}}", inputs.len(), total);
 }
 
-pub fn cmd_session(_args: &[String]) { unimplemented!() }
+// ---------------------------------------------------------------- session
+fn short_message(rng: &mut StdRng, kind: u8) -> Vec<u8> {
+    let mut b: Vec<u8> = Vec::new();
+    if kind == K_REQ {
+        b.extend_from_slice([&b"GET"[..], b"POST", b"X"][rng.gen_range(0..3)]);
+        b.extend_from_slice(b" /");
+        for _ in 0..rng.gen_range(0..4) { b.push(rng.gen_range(b'a'..=b'z')); }
+        b.extend_from_slice(b" HTTP/1.");
+        b.push(if rng.gen_bool(0.5) { b'0' } else { b'1' });
+    } else {
+        b.extend_from_slice(b"HTTP/1.");
+        b.push(if rng.gen_bool(0.5) { b'0' } else { b'1' });
+        b.extend_from_slice(b" 20");
+        b.push(b'0' + rng.gen_range(0..10));
+        if rng.gen_bool(0.7) { b.extend_from_slice(b" OK"); }
+    }
+    b.extend_from_slice(if rng.gen_bool(0.5) { b"\r\n" } else { b"\n" });
+    for _ in 0..rng.gen_range(0..5) {
+        b.push(rng.gen_range(b'a'..=b'z'));
+        b.push(b':');
+        if rng.gen_bool(0.5) { b.push(b' '); }
+        for _ in 0..rng.gen_range(0..3) { b.push(rng.gen_range(b'0'..=b'9')); }
+        b.push(b'\n');
+        if rng.gen_bool(0.15) { b.extend_from_slice(b" f\n"); }
+    }
+    b.push(b'\n');
+    if rng.gen_bool(0.2) && !b.is_empty() {
+        let i = rng.gen_range(0..b.len());
+        b[i] = [0u8, 9, 10, 13, 32, 58, 127, 200][rng.gen_range(0..8)];
+    }
+    if rng.gen_bool(0.4) {
+        let k = rng.gen_range(0..=b.len());
+        b.truncate(k);
+    }
+    b
+}
+
+/// call histories on one re-used value and array
+pub fn cmd_session(args: &[String]) {
+    use std::mem::MaybeUninit;
+    let out = arg(args, "--out").unwrap();
+    let seed: u64 = arg(args, "--seed").and_then(|s| s.parse().ok()).unwrap_or(0);
+    let sessions: usize = arg(args, "--sessions").and_then(|s| s.parse().ok()).unwrap_or(1000);
+    let shards: usize = arg(args, "--shards").and_then(|s| s.parse().ok()).unwrap_or(1);
+    let mut rng = StdRng::seed_from_u64(seed ^ 0x5e55);
+    let mut ws: Vec<BufWriter<std::fs::File>> = (0..shards).map(|i| BufWriter::new(std::fs::File::create(format!("{}.{}", out, i)).unwrap())).collect();
+    let mut calls = 0u64;
+    for si in 0..sessions {
+        let w = &mut ws[si % shards];
+        let kind = if rng.gen_bool(0.5) { K_REQ } else { K_RESP };
+        let cap = [0usize, 1, 2, 3, 4, 8][rng.gen_range(0..6)];
+        let ncalls = rng.gen_range(1..=5);
+        // plan: (uninit?, ucap, cfg, buffer); the README loop (growing prefixes of one message) is one shape
+        let readme = rng.gen_bool(0.3);
+        let full = short_message(&mut rng, kind);
+        let mut plan: Vec<(bool, usize, u8, Vec<u8>)> = Vec::new();
+        for ci in 0..ncalls {
+            let buf = if readme {
+                let k = full.len() * (ci + 1) / ncalls;
+                full[..k].to_vec()
+            } else {
+                short_message(&mut rng, kind)
+            };
+            let uninit = rng.gen_bool(0.25);
+            let cfg = if rng.gen_bool(0.5) { 0 } else { rng.gen_range(0..128u8) & relevant_mask(kind) };
+            plan.push((uninit, rng.gen_range(0..5), cfg, buf));
+        }
+        writeln!(w, "{{\"ev\":\"session\",\"kind\":{},\"cap\":{}}}", kind, cap).unwrap();
+        let bufs: Vec<Vec<u8>> = plan.iter().map(|p| p.3.clone()).collect();
+        let mut arr: Vec<httparse::Header> = (0..cap).map(sentinel).collect();
+        let arr_base = arr.as_ptr() as usize;
+        let mut uns: Vec<Vec<MaybeUninit<httparse::Header>>> = plan.iter().map(|p| (0..p.1).map(|i| MaybeUninit::new(sentinel(i))).collect()).collect();
+        let mut un_iter = uns.iter_mut();
+        macro_rules! log_call {
+            ($w:expr, $o:expr, $buf:expr, $kind:expr, $p:expr, $exp:expr, $whole:expr) => {
+                writeln!($w, "{{\"ev\":\"scall\",\"uninit\":{},\"ucap\":{},\"cfg\":{},\"buf\":[{}],{},\"exp\":{},\"whole\":{}}}",
+                    $p.0 as u8, $p.1, $p.2, $buf.iter().map(|x| x.to_string()).collect::<Vec<_>>().join(","),
+                    obs_json(&$o, $buf, $kind), $exp, $whole as u8).unwrap();
+            };
+        }
+        if kind == K_REQ {
+            let mut req = httparse::Request::new(&mut arr[..]);
+            for (ci, p) in plan.iter().enumerate() {
+                let buf: &[u8] = &bufs[ci];
+                let un = un_iter.next().unwrap();
+                let cfg = make_config(p.2);
+                let before_ptr = req.headers.as_ptr() as usize;
+                let before_len = req.headers.len();
+                let r: Result<_, ()> = Ok(if p.0 { cfg.parse_request_with_uninit_headers(&mut req, buf, &mut un[..]) } else { cfg.parse_request(&mut req, buf) });
+                let mut o = Obs::default();
+                match r {
+                    Ok(Ok(httparse::Status::Complete(n))) => { o.st = ST_C; o.n = n; }
+                    Ok(Ok(httparse::Status::Partial)) => o.st = ST_P,
+                    Ok(Err(e)) => { o.st = ST_E; o.err = match e { httparse::Error::Token => 1, httparse::Error::Version => 2, httparse::Error::NewLine => 3, httparse::Error::Status => 4, httparse::Error::HeaderName => 5, httparse::Error::HeaderValue => 6, httparse::Error::TooManyHeaders => 7 }; }
+                    Err(_) => o.panicked = true,
+                }
+                o.method = req.method.map(|m| Sl::of(m.as_bytes()));
+                o.path = req.path.map(|m| Sl::of(m.as_bytes()));
+                o.version = req.version;
+                o.exposed = req.headers.iter().map(|h| (Sl::of(h.name.as_bytes()), Sl::of(h.value))).collect();
+                let whole = req.headers.as_ptr() as usize == before_ptr && req.headers.len() == before_len;
+                let _ = arr_base;
+                log_call!(w, o, buf, kind, p, req.headers.len(), whole);
+                calls += 1;
+                if o.panicked { break; }
+            }
+        } else {
+            let mut resp = httparse::Response::new(&mut arr[..]);
+            for (ci, p) in plan.iter().enumerate() {
+                let buf: &[u8] = &bufs[ci];
+                let un = un_iter.next().unwrap();
+                let cfg = make_config(p.2);
+                let before_ptr = resp.headers.as_ptr() as usize;
+                let before_len = resp.headers.len();
+                let r: Result<_, ()> = Ok(if p.0 { cfg.parse_response_with_uninit_headers(&mut resp, buf, &mut un[..]) } else { cfg.parse_response(&mut resp, buf) });
+                let mut o = Obs::default();
+                match r {
+                    Ok(Ok(httparse::Status::Complete(n))) => { o.st = ST_C; o.n = n; }
+                    Ok(Ok(httparse::Status::Partial)) => o.st = ST_P,
+                    Ok(Err(e)) => { o.st = ST_E; o.err = match e { httparse::Error::Token => 1, httparse::Error::Version => 2, httparse::Error::NewLine => 3, httparse::Error::Status => 4, httparse::Error::HeaderName => 5, httparse::Error::HeaderValue => 6, httparse::Error::TooManyHeaders => 7 }; }
+                    Err(_) => o.panicked = true,
+                }
+                o.version = resp.version;
+                o.code = resp.code;
+                o.reason = resp.reason.map(|m| Sl::of(m.as_bytes()));
+                o.exposed = resp.headers.iter().map(|h| (Sl::of(h.name.as_bytes()), Sl::of(h.value))).collect();
+                let whole = resp.headers.as_ptr() as usize == before_ptr && resp.headers.len() == before_len;
+                log_call!(w, o, buf, kind, p, resp.headers.len(), whole);
+                calls += 1;
+                if o.panicked { break; }
+            }
+        }
+    }
+    println!("{{\"sessions\":{},\"calls\":{}}}", sessions, calls);
+}
 pub fn cmd_race(_args: &[String]) { unimplemented!() }
-pub fn cmd_scan(_args: &[String]) { unimplemented!() }
+// ---------------------------------------------------------------- scan
+/// aggregated scanner results of every compiled-in backend (hook H2)
+pub fn cmd_scan(args: &[String]) {
+    let out = arg(args, "--out").unwrap();
+    let shards: usize = arg(args, "--shards").and_then(|s| s.parse().ok()).unwrap_or(1);
+    let thorough = args.iter().any(|a| a == "--thorough");
+    let seed: u64 = arg(args, "--seed").and_then(|s| s.parse().ok()).unwrap_or(0);
+    let lens: Vec<usize> = if thorough { (0..=100).collect() } else {
+        let mut v: Vec<usize> = (0..=40).collect();
+        v.extend_from_slice(&[47, 48, 49, 63, 64, 65, 66, 95, 96, 97, 100]);
+        v
+    };
+    let aligns: Vec<usize> = if thorough { (0..32).collect() } else { vec![(seed % 32) as usize, ((seed / 32 + 13) % 32) as usize] };
+    let arena = Arena::new(1 << 16);
+    let mut ws: Vec<BufWriter<std::fs::File>> = (0..shards).map(|i| BufWriter::new(std::fs::File::create(format!("{}.{}", out, i)).unwrap())).collect();
+    let mut events = 0u64;
+    let mut calls = 0u64;
+    let mut backends_seen = Vec::new();
+    let mut data = vec![0u8; 128];
+    for backend in 0u8..4 {
+        if httparse::verif::scan(backend, 0, b"abc").is_none() {
+            continue;
+        }
+        backends_seen.push(backend);
+        for cls in 0u8..3 {
+            if httparse::verif::scan(backend, cls, b"abc").is_none() {
+                continue;
+            }
+            for &n in &lens {
+                for fill in [97u8, 9u8] {
+                    // p = 0: no offender (one event); p in 1..=n; optional second offender
+                    for p in 0..=n {
+                        let seconds: Vec<(usize, u8)> = if p > 0 && p + 1 <= n && (thorough || n % 7 == 3) {
+                            vec![(0, 0), (p + 1, 0), ((p + 9).min(n), 127)]
+                        } else {
+                            vec![(0, 0)]
+                        };
+                        for (q, qb) in seconds {
+                            if q == p { continue; }
+                            for (ai, &align) in aligns.iter().enumerate() {
+                                if fill == 9 && ai > 0 { continue; }
+                                let mut stops = [0usize; 256];
+                                for b in 0..256usize {
+                                    for i in 0..n { data[i] = fill; }
+                                    if q > 0 { data[q - 1] = qb; }
+                                    if p > 0 { data[p - 1] = b as u8; }
+                                    // end flush against the guard page for align 0, else inside mapped memory
+                                    let buf = arena.place(&data[..n], if ai == 0 { Place::End } else { Place::Align(align) });
+                                    stops[b] = httparse::verif::scan(backend, cls, buf).unwrap();
+                                    calls += 1;
+                                    if p == 0 { for x in 1..256 { stops[x] = stops[0]; } break; }
+                                }
+                                let mut runs = String::new();
+                                let mut i = 0;
+                                while i < 256 {
+                                    let mut j = i;
+                                    while j < 256 && stops[j] == stops[i] { j += 1; }
+                                    if !runs.is_empty() { runs.push(','); }
+                                    runs.push_str(&format!("[{},{}]", stops[i], j - i));
+                                    i = j;
+                                }
+                                let w = &mut ws[(events as usize) % shards];
+                                writeln!(w, "{{\"ev\":\"scan\",\"backend\":{},\"cls\":{},\"n\":{},\"p\":{},\"fill\":{},\"q\":{},\"qb\":{},\"align\":{},\"runs\":[{}]}}",
+                                    backend, cls, n, p, fill, q, qb, if ai == 0 { 99 } else { align }, runs).unwrap();
+                                events += 1;
+                            }
+                        }
+                    }
+                }
+            }
+        }
+    }
+    println!("{{\"events\":{},\"calls\":{},\"backends\":{:?},\"provider\":\"{}\"}}", events, calls, backends_seen, httparse::verif::provider());
+}
